@@ -697,6 +697,7 @@ func corpusRpcConf() []*rpcConfCase {
 		mk(3, 100, 4, 104, 104, 3, "corpus:window-edge-closed"),
 		mk(3, 100, 4, 103, 103, 3, "corpus:window-edge-open"),
 		mk(3, 100, 504, 110, 110, 60, "corpus:confirmed-before-start"),
+		mk(3, 100, 504, 103, 105, 1, "corpus:notified-above-node-height"), // finding C20/2
 	}
 }
 
